@@ -152,7 +152,11 @@ func runTrajectoryHook(sc *Scenario, env *Env, oc *OutputCfg, oracles []Oracle, 
 			res.add("days.nat2", float64(c))
 		}
 	}
-	if out.Panic != "" {
+	tornInput := w.WxFault != nil && w.WxFault.Kind == "torn-tail" // an input file cut in the middle of a record: any way of giving up is acceptable
+	if out.Panic != "" && tornInput {
+		res.Status, res.Note = "invalid", "run gave up on a torn input file: "+shortPanic(out.Panic)
+		res.add("reach.torn-file-ended-the-run", 1)
+	} else if out.Panic != "" {
 		res.Status = "crash"
 		res.Note = "panic: " + shortPanic(out.Panic)
 		if where, model := panicOrigin(out.Panic); model {
